@@ -287,8 +287,8 @@ def run_pure(ctx):
                      {"kind": "match_files", "rels": rels, "exclude": exc, "include": inc, "observed": obs})
     for i in bad["mf_spec_ok"]:
         rels, exc, inc, obs = mf_cases[i]
-        inc2 = inc if inc is not None else ctx.tables.get("default_included_paths", PINNED_INCLUDED)
-        exc2 = exc if exc is not None else ctx.tables.get("default_excluded_paths", PINNED_EXCLUDED)
+        inc2 = inc if inc is not None else PINNED_INCLUDED
+        exc2 = exc if exc is not None else PINNED_EXCLUDED
         exp = sorted({f for f in rels if py_selected(inc2, exc2, f)})
         ctx.violation("kf_c05_match_files_selection",
                       f"match_files(rels={rels}, exclude={exc}, include={inc}) returned {obs}; the patterns select {exp}",
@@ -472,8 +472,7 @@ def judge_e2e(ctx, jobs, observations):
         else:
             sast.append((j, o, replay, cpair(c_tree(entries), c_strs(j["res"]), c_strs(regdef), c_strs(j["exc"]), c_strs(j["inc"]),
                                              c_strs(o["changed"]))))
-    defs_inc = ctx.tables.get("default_included_paths", PINNED_INCLUDED)
-    defs_exc = ctx.tables.get("default_excluded_paths", PINNED_EXCLUDED)
+    defs_inc, defs_exc = PINNED_INCLUDED, PINNED_EXCLUDED      # the spec oracle uses the defaults the property names
     if ff:
         bad = core.eval_bad_indices(ctx, "c05_e2e", IMPORTS, "e2e_case", [x[3] for x in ff], ["e2e_model_ok", "e2e_spec_ok"], chunk=100)
         for i in sorted(set(bad["e2e_spec_ok"])):
@@ -526,7 +525,7 @@ def check_tables(ctx):
     if t.get("default_included_paths") != PINNED_INCLUDED or t.get("default_excluded_paths") != PINNED_EXCLUDED:
         ctx.notes.append("DEFAULT_INCLUDED_PATHS/DEFAULT_EXCLUDED_PATHS differ from the lists of the pinned tree: "
                          "C05_default_lists_char is vacuous for the current source (its premises name the pinned lists); "
-                         "the model and the correspondence use the current lists")
+                         "the model uses the current lists, the spec oracle the pinned ones (Spec/GlobDefaults.v)")
 
 
 def run(ctx: core.Ctx):
